@@ -355,7 +355,8 @@ def _sort_values(g: G, flt: str) -> tuple[Any, bool]:
         return (G.t_key, True) if g.p(0.5) else (_sortable_num, False)
     if flt == "sort_natural":
         return (lambda h: h.t_key() if h.p(0.7) else h.int(0, 1200)), True
-    return (lambda h: _version(h) if h.p(0.6) else h.int(-20, 120) if h.p(0.6) else h.dec_float()), True
+    return (lambda h: h.one([True, False, 1.0, 0.0, 1, 0]) if h.p(0.12) else _version(h) if h.p(0.6)
+            else h.int(-20, 120) if h.p(0.6) else h.dec_float()), True
 
 
 def g_sort(g: G) -> dict[str, Any]:
@@ -937,7 +938,9 @@ class C19(Prop):
             return (0, str(v).lower())
         if M.is_num(v):
             return (0, (v,))
-        found = tuple(int(d) for d in re.findall(r"\d+", v))
+        if isinstance(v, bool) or v is None:
+            return (1,)  # 'true' / 'false' / nil have no digits: with the digit-less items, last
+        found = tuple(int(d) for d in re.findall(r"\d+", v if isinstance(v, str) else M.liquid_str(v)))
         return (0, found) if found else (1,)
 
     def _law_sort(self, c: dict[str, Any], res: Result, run: Run) -> None:
